@@ -2,7 +2,7 @@
 
    A journal is given as its syntax-level directives [ds] (Model/Ledger.v); [reparse] is the
    model of "read this text as a journal" (the parser of C07 followed by Model/ToModel.v).
-   For a printer [pr] (Cli.print_cmd = the pinned journal.Print, Cli.print_cmd_fixed = the
+   For a printer [pr] (Cli.print_cmd_pinned = the pinned journal.Print, Cli.print_cmd = the
    repaired one):
 
      accepted l ds          knut check accepts ds
@@ -23,7 +23,7 @@ Open Scope Z_scope.
 
 Definition printer := list sdirective -> cresult Str.str.
 
-Definition accepted (lenient : bool) (ds : list sdirective) : Prop := check_cmd lenient ds = COk tt.
+Definition accepted (lenient : bool) (ds : list sdirective) : Prop := check_cmd_current lenient ds = COk tt.
 Definition printed (pr : printer) (ds : list sdirective) (text : Str.str) : Prop := pr ds = COk text.
 
 Definition normal_form (pr : printer) (lenient : bool) (text : Str.str) : Prop :=
@@ -37,7 +37,7 @@ Definition same_report (cfg : balance_cfg) (ds : list sdirective) (text : Str.st
 Definition normal_form_b (pr : printer) (text : Str.str) : bool :=
   match reparse text with
   | MOk ds' =>
-    match check_cmd true ds' with
+    match check_cmd_current true ds' with
     | COk _ => match pr ds' with COk t2 => Str.str_eqb t2 text | _ => false end
     | _ => false
     end
